@@ -954,3 +954,45 @@ func valsFromCall(vals []ssa.Value, call *ssa.Call) bool {
 	}
 	return true
 }
+
+// condsAtUp: the branch conditions that hold on entry to b — in b's function
+// (and, for a literal, where it was created), and, when that function is a
+// private helper, additionally those that hold at EVERY one of its call sites
+// (compared by term and polarity).
+func condsAtUp(b *ssa.BasicBlock, depth int) []facts.Cond {
+	out := facts.CondsAtDeep(b)
+	h := outermost(b.Parent())
+	if depth <= 0 {
+		return out
+	}
+	sites := privateCallSites(h)
+	if len(sites) == 0 {
+		return out
+	}
+	key := func(cd facts.Cond) string {
+		if cd.Pos {
+			return "+" + facts.Term(cd.V)
+		}
+		return "-" + facts.Term(cd.V)
+	}
+	var common []facts.Cond
+	for i, s := range sites {
+		cs := condsAtUp(s.Block(), depth-1)
+		if i == 0 {
+			common = cs
+			continue
+		}
+		have := map[string]bool{}
+		for _, cd := range cs {
+			have[key(cd)] = true
+		}
+		var keep []facts.Cond
+		for _, cd := range common {
+			if have[key(cd)] {
+				keep = append(keep, cd)
+			}
+		}
+		common = keep
+	}
+	return append(out, common...)
+}
